@@ -130,7 +130,7 @@ CHECKS = {
        "the session, and the accepted CONNACK with Session Present = 0 then has EQUAL outcome on both — so a reused client told 'session not "
        "present' equals a fresh object, with equal traces for every later script. Outside the theorems: traffic between that CONNECT and its "
        "CONNACK (the old session is kept there by design). The implementation is judged by the paired-run monitor (reused vs fresh "
-       "implementation object: events + full digest), the quota stage and the correspondence.",
+       "implementation object: events + full digest), the quota stage and the correspondence. THE PAIR (Conn/PairReconnect.v): whatever state two v5.0 endpoints are in, after notify_closed on both a Clean Start handshake establishes the two-way pair invariant as on a first connection and every schedule on the new connection ends with exactly-once delivery both ways (C10_reconnect_reestablishes_pair_invariant).",
   ref="DESIGN.md §3 C10",
   note=CONN_NOTE + " Paired cases: the application releases the ids it holds before reusing the object; offline publishing is configured between connections.",
   technique="Coq all-states state-equality proofs (dead-at-connect) + determinism + paired-run differential monitor on two implementation objects"),
